@@ -27,8 +27,24 @@ fn bviol(st: &mut Stats, prop: u8, spec: &Spec, what: &str, msg: String) {
     });
 }
 
+/// `graphs::build` registered with the "does build() return" watchdog.
+fn timed_build(spec: &Spec) -> FnGraph<Node> {
+    watch_begin(spec);
+    let g = crate::graphs::build(spec);
+    watch_end();
+    g
+}
+
 /// Build through the public API, recording what `add_fn` returned.
 fn build_recording(spec: &Spec) -> (FnGraph<Node>, Vec<usize>) {
+    struct Guard;
+    impl Drop for Guard {
+        fn drop(&mut self) {
+            watch_end();
+        }
+    }
+    watch_begin(spec);
+    let _guard = Guard;
     let mut b = FnGraphBuilder::new();
     let ids: Vec<FnId> = (0..spec.n).map(|i| b.add_fn(Node::new(i, spec.acc(i).to_vec()))).collect();
     for &(x, y, contains) in &spec.edges {
@@ -297,7 +313,7 @@ pub fn check_sensitivity(spec: &Spec, st: &mut Stats) {
 /// C14 on one built graph.
 pub fn check_iteration(spec: &Spec, st: &mut Stats) {
     let n = spec.n;
-    let Ok(mut g) = catch_quiet(|| crate::graphs::build(spec)) else { return };
+    let Ok(mut g) = catch_quiet(|| timed_build(spec)) else { return };
     st.execs += 1;
     let raw = raw_edges(&g);
     let what = "iterate";
@@ -443,7 +459,7 @@ pub fn check_iteration(spec: &Spec, st: &mut Stats) {
 /// C17 on one built graph.
 pub fn check_graph_info(spec: &Spec, yaml: bool, st: &mut Stats) {
     let n = spec.n;
-    let Ok(g) = catch_quiet(|| crate::graphs::build(spec)) else { return };
+    let Ok(g) = catch_quiet(|| timed_build(spec)) else { return };
     st.execs += 1;
     let raw = raw_edges(&g);
     let what = "graph_info";
@@ -544,7 +560,9 @@ pub fn check_graph_info(spec: &Spec, yaml: bool, st: &mut Stats) {
 pub static IN_PROGRESS: std::sync::Mutex<Vec<(std::thread::ThreadId, Instant, String)>> = std::sync::Mutex::new(Vec::new());
 
 fn watch_begin(spec: &Spec) {
+    let id = std::thread::current().id();
     let mut w = IN_PROGRESS.lock().unwrap();
+    w.retain(|e| e.0 != id);
     w.push((std::thread::current().id(), Instant::now(), serde_json::to_string(spec).unwrap_or_default()));
 }
 
@@ -1134,8 +1152,17 @@ pub fn run_build_props(prop: u8, tier: &str, deadline: Instant, total: &mut Stat
                 }
                 members.push((Family::Chain, k));
                 members.push((Family::BinTree, k));
+                if 2 * k <= kmax {
+                    members.push((Family::CompletePlusChain, k));
+                }
+                if 3 * k <= kmax {
+                    members.push((Family::LayeredPlusChain(2), k));
+                }
+                if 4 * k <= kmax {
+                    members.push((Family::LayeredPlusChain(3), k));
+                }
             }
-            run_family_space(&format!("dense / layered families up to n={kmax} (complete DAG, 2-4 wide layers, diamond chains, bipartite), both insertion orders"), members, deadline, &f, total, log);
+            run_family_space(&format!("dense / layered families up to n={kmax} (complete DAG, 2-4 wide layers, diamond chains, bipartite, each also next to an independent chain), both insertion orders"), members, deadline, &f, total, log);
         }
         _ => unreachable!(),
     }
